@@ -88,25 +88,25 @@ type vcfg struct {
 }
 
 type vrun struct {
-	dir     string
-	cfg     vcfg
-	db      *NoKV.DB
-	c       *corr.Ctx
-	ops     []string
-	desc    []string
-	steps   []string // executed program, replayable
-	seq     uint64
-	now     uint64
-	touched map[string]map[uint64]bool
-	keys    []string
-	prev    map[string]bool // vlog records seen so far: "bucket/fid/offset"
-	maint   int
-	gcs     int
-	gcMoved int
-	races   int
-	big     int
-	rot     int
-	firstMem uint32
+	dir       string
+	cfg       vcfg
+	db        *NoKV.DB
+	c         *corr.Ctx
+	ops       []string
+	desc      []string
+	steps     []string // executed program, replayable
+	seq       uint64
+	now       uint64
+	touched   map[string]map[uint64]bool
+	keys      []string
+	prev      map[string]bool // vlog records seen so far: "bucket/fid/offset"
+	maint     int
+	gcs       int
+	gcMoved   int
+	races     int
+	big       int
+	rot       int
+	firstMem  uint32
 	plainUsed bool
 	valSeq    map[string]uint64 // written value bytes -> ghost number of a write carrying them
 	reopened  bool
